@@ -708,15 +708,30 @@ static Type *pointers(Token **rest, Token *tok, Type *ty) {
   return ty;
 }
 
+// Returns the token after the ")" that matches the "(" at `tok`.
+static Token *skip_parens(Token *tok) {
+  Token *start = tok;
+  int level = 0;
+  for (; tok->kind != TK_EOF; tok = tok->next) {
+    if (equal(tok, "("))
+      level++;
+    else if (equal(tok, ")") && --level == 0)
+      return tok->next;
+  }
+  error_tok(start, "unclosed parenthesis");
+}
+
 // declarator = pointers ("(" ident ")" | "(" declarator ")" | ident) type-suffix
 static Type *declarator(Token **rest, Token *tok, Type *ty) {
   ty = pointers(&tok, tok, ty);
 
   if (equal(tok, "(")) {
+    // The suffix that follows the parenthesized declarator applies
+    // first. Find it by matching the parenthesis; parsing the inner
+    // declarator just to skip it would take time exponential in the
+    // nesting depth.
     Token *start = tok;
-    Type dummy = {};
-    declarator(&tok, start->next, &dummy);
-    tok = skip(tok, ")");
+    tok = skip_parens(tok);
     ty = type_suffix(rest, tok, ty);
     return declarator(&tok, start->next, ty);
   }
@@ -741,9 +756,7 @@ static Type *abstract_declarator(Token **rest, Token *tok, Type *ty) {
 
   if (equal(tok, "(")) {
     Token *start = tok;
-    Type dummy = {};
-    abstract_declarator(&tok, start->next, &dummy);
-    tok = skip(tok, ")");
+    tok = skip_parens(tok);
     ty = type_suffix(rest, tok, ty);
     return abstract_declarator(&tok, start->next, ty);
   }
